@@ -4,6 +4,7 @@ asks `choose`; alternatives that z3 finds feasible are queued as decision prefix
 import re
 import time
 
+import os
 import z3
 import sys
 
@@ -58,7 +59,7 @@ def strip_generics(s):
 
 def base_type_name(t):
     t = t.strip()
-    t = re.sub(r"^&('\w+ )?(mut )?", "", t)
+    t = re.sub(r"^(&('\w+ )?(mut )?)+", "", t)
     t = strip_generics(t)
     return t.split("::")[-1].strip()
 
@@ -117,6 +118,28 @@ def callee_generics(path):
                     return split_top(path[i + 1:-1])
                 return []
     return []
+
+
+_IMPL_LINE_CACHE = {}
+
+
+def _impl_line_names_trait(fn_name, trait):
+    m = re.search(r"<impl at ([^:>]+):(\d+):", fn_name)
+    if not m:
+        return False
+    key = (m.group(1), int(m.group(2)))
+    if key not in _IMPL_LINE_CACHE:
+        try:
+            from common import REPO
+            lines = open(os.path.join(REPO, m.group(1))).read().splitlines()
+            _IMPL_LINE_CACHE[key] = " ".join(lines[key[1] - 1:key[1] + 2])
+        except Exception:  # noqa
+            _IMPL_LINE_CACHE[key] = ""
+    return re.search(r"\bimpl\b[^{]*\b%s\b[^{]*\bfor\b" % re.escape(trait), _IMPL_LINE_CACHE[key]) is not None
+
+
+STD_TYPE_NAMES = {"Option", "Result", "Vec", "String", "str", "HashMap", "HashSet", "BTreeMap", "Box", "Rc", "Arc", "Duration", "Instant", "Ipv4Addr", "Ipv6Addr", "IpAddr",
+                  "Iterator", "slice", "Cell", "RefCell", "Mutex", "RwLock", "char", "u8", "u16", "u32", "u64", "u128", "usize", "i8", "i16", "i32", "i64", "i128", "isize"}
 
 
 class Call:
@@ -299,6 +322,14 @@ class Exec:
                     c2 = [f for f in cands if any(base_type_name(t.replace("&", "").strip()) == targ for k, t in f.param_types.items() if k >= 2)]
                     if c2:
                         cands = c2
+            if len(cands) > 1:
+                # last resort: read the `impl <Trait> for ..` line the MIR name points at
+                parts = split_top_as(path[1:path.index(">::")] if ">::" in path else path[1:])
+                if len(parts) == 2:
+                    trait = base_type_name(parts[1])
+                    c2 = [f for f in cands if _impl_line_names_trait(f.name, trait)]
+                    if c2:
+                        cands = c2
             if len(cands) == 1:
                 return cands[0]
             if len(cands) > 1:
@@ -311,7 +342,12 @@ class Exec:
         if not cands:
             return None
         if len(cands) == 1:
-            return cands[0]
+            f = cands[0]
+            # an inherent/trait method of the crate must not capture a std method of the same name (Result::unwrap_or vs
+            # ConfigValue::unwrap_or): the type segment of the call path has to be the method's self or return type
+            if len(segs) >= 2 and "<impl at" in f.name and segs[-2] in STD_TYPE_NAMES:
+                return None
+            return f
         # disambiguate with the type/module segment before the function name
         if len(segs) >= 2:
             hint = segs[-2]
@@ -538,7 +574,7 @@ class Exec:
         m = re.match(r"^(-?\d+)_(u8|u16|u32|u64|u128|usize|i8|i16|i32|i64|i128|isize)$", c)
         if m:
             return bv_const(int(m.group(1)), m.group(2))
-        m = re.match(r"^(u8|u16|u32|u64|u128|usize|i8|i16|i32|i64|i128|isize)::(MAX|MIN)$", c)
+        m = re.match(r"^(?:core::num::<impl )?(u8|u16|u32|u64|u128|usize|i8|i16|i32|i64|i128|isize)>?::(MAX|MIN)$", c)
         if m:
             w, sg = INT_TYPES[m.group(1)]
             if m.group(2) == "MAX":
@@ -574,11 +610,21 @@ class Exec:
         m = re.match(r"^(.*)::promoted\[(\d+)\]$", c)
         if m:
             want = "promoted[%s]" % m.group(2)
-            tail = strip_generics(m.group(1)).split("::")[-1]
-            for name, f in self.prog.fns.items():
-                if name.endswith("::" + want) and tail in name:
-                    return self.call_fn(f, [])
-            raise Unsupported(f"promoted constant not found: {c}")
+            segs = [x for x in strip_generics(m.group(1)).split("::") if x]
+            # owner = the trailing run of {closure#n} segments plus the function name before them
+            k = len(segs) - 1
+            while k > 0 and segs[k].startswith("{closure"):
+                k -= 1
+            owner = "::".join(segs[k:])
+            hits = [f for name, f in self.prog.fns.items() if name.endswith("::" + owner + "::" + want) or name == owner + "::" + want]
+            if len(hits) > 1 and fn is not None:
+                # same function name in several impls: prefer the one defined in the caller's own impl block
+                span = re.search(r"<impl at [^>]*>", fn.name)
+                h2 = [f for f in hits if span and span.group(0) in f.name]
+                hits = h2 or hits
+            if len(hits) == 1:
+                return self.call_fn(hits[0], [])
+            raise Unsupported(f"promoted constant not found uniquely: {c} ({[f.name for f in hits][:4]})")
         m = re.match(r"^(?:\w+::)*(\w+)::(\w+)$", c)
         if m and any(m.group(2) in variants for variants in self.enums.get(m.group(1), [])):
             return Adt(m.group(1), m.group(2), [])      # field-less enum variant used as a constant
